@@ -452,11 +452,16 @@ def _qname_atoms(v):
             yield x["q"]
 
 
-def p_reserved_prefix(a):
-    for p, u in user_map(a["ns_map"]).items():
-        if p is not None and (p in ("xml", "xmlns") or not S.is_ncname(p)):
-            return True
-        if u in (XMLNS, XMLNS_NS) and p != "xml":
+def _py_ncname(p):
+    """what `str.isalpha` / `str.isdigit` make of the NCName production (independent transcription)"""
+    return bool(p) and (p[0].isalpha() or p[0] == "_") and all(c.isalpha() or c.isdigit() or c in "\u00b7\u0387.-_" for c in p[1:])
+
+
+def p_prefix_unicode_ncname(a):
+    """a user prefix with a non-ASCII character that Python counts as a letter or digit but the XML
+    Name production does not (U+00AA, U+00B2 …): `is_ncname` accepts it, no document can declare it"""
+    for p, _ in user_map(a["ns_map"]).items():
+        if p is not None and not S.is_ncname(p) and _py_ncname(p) and any(ord(c) > 127 for c in p):
             return True
     return False
 
@@ -516,7 +521,7 @@ def p_qname_default_reset(a):
 # id -> (predicate, {writer: kinds})
 KNOWN = {
     "c03-qname-default-reset": (p_qname_default_reset, {"native": ("infoset",), "lxml": ("infoset",)}),
-    "c03-reserved-prefix": (p_reserved_prefix, {"native": ("not-wf", "infoset"), "lxml": ("leak:ValueError", "not-wf", "infoset")}),
+    "c03-prefix-unicode-ncname": (p_prefix_unicode_ncname, {"native": ("not-wf",), "lxml": ("leak:ValueError",)}),
     "c03-nonxml-chars": (p_nonxml_chars, {"native": ("not-wf",), "lxml": ("leak:ValueError",)}),
     "c03-qname-late-prefix": (p_qname_late, {"native": ("leak:KeyError", "infoset", "not-wf"), "lxml": ("infoset",)}),
     "c03-qname-default-ns": (p_qname_default, {"native": ("infoset",), "lxml": ("infoset",)}),
@@ -598,11 +603,11 @@ def _tree(text):
         return None
 
 
-def f_reserved_prefix():
-    outs = [_render(RootA(), {p: "urn:a"}) for p in ("xml", "xmlns", "a b")]
-    bad = all(S.parse_infoset(o) is None for o in outs)
-    lx = _render(RootA(), {"a b": "urn:a"}, LxmlEventWriter)
-    return bad and lx == "EXC ValueError", "native: %s; lxml 'a b': %s" % (" | ".join(outs), lx)
+def f_prefix_unicode_ncname():
+    outs = [_render(RootA(), {p: "urn:a"}) for p in ("\u00aa", "p\u00b2")]
+    bad = all(not o.startswith(("EXC", "SERIALIZER-ERROR")) and S.parse_infoset(o) is None for o in outs)
+    lx = _render(RootA(), {"\u00aa": "urn:a"}, LxmlEventWriter)
+    return bad and lx == "EXC ValueError", "native: %s; lxml U+00AA: %s" % (" | ".join(outs), lx)
 
 
 def f_nonxml_chars():
@@ -663,7 +668,7 @@ def f_qname_default():
 
 
 FINDINGS = {
-    "c03-reserved-prefix": f_reserved_prefix,
+    "c03-prefix-unicode-ncname": f_prefix_unicode_ncname,
     "c03-nonxml-chars": f_nonxml_chars,
     "c03-qname-late-prefix": f_qname_late,
     "c03-qname-default-ns": f_qname_default,
